@@ -1,0 +1,5 @@
+//go:build !verif
+
+package routing
+
+func verifYield(string) {}
